@@ -27,6 +27,8 @@
 #include <sys/stat.h>
 #include <sys/socket.h>
 #include <sys/un.h>
+#include <sys/wait.h>
+#include <sched.h>
 #include "uv.h"
 
 #define REGION_PAGES 64
@@ -60,9 +62,10 @@ int __wrap_getpwuid_r(uid_t uid, struct passwd* pw, char* buf, size_t n, struct 
 int __real_gethostname(char*, size_t);
 int __wrap_gethostname(char* name, size_t n) {
   if (!s_host_on) return __real_gethostname(name, n);
-  if (s_host_len + 1 <= n) memcpy(name, s_host, s_host_len + 1);
-  else memcpy(name, s_host, n);              /* truncating libc: no terminator */
-  return 0;
+  if (s_host_len + 1 <= n) { memcpy(name, s_host, s_host_len + 1); return 0; }
+  memcpy(name, s_host, n);                   /* truncated, no terminator */
+  if (s_host_len <= 64) { errno = ENAMETOOLONG; return -1; }   /* glibc, for a name the kernel can hold */
+  return 0;                                  /* longer (not Linux): a libc that truncates silently */
 }
 
 char* __real_if_indextoname(unsigned int, char*);
@@ -198,6 +201,39 @@ static void noop_conn(uv_stream_t* s, int st) { (void) s; (void) st; }
 static int connected;
 static void on_connect(uv_connect_t* r, int st) { (void) r; connected = st == 0 ? 1 : -1; }
 
+/* Cases that change process-wide state which cannot be undone (chroot, UTS namespace) run in a
+ * forked child writing to the same stdout.  If the child dies the parent dies the same way, so that
+ * checks/c19.py sees one dead harness (DIED line or unfinished line), as for any other case. */
+static pid_t enter_child(void) {
+  pid_t pid;
+  fflush(stdout);
+  pid = fork();
+  if (pid < 0) die("fork");
+  return pid;
+}
+static void leave_child(void) { fflush(stdout); _exit(0); }
+static void wait_child(pid_t pid) {
+  int st = 0;
+  while (waitpid(pid, &st, 0) < 0 && errno == EINTR) {}
+  if (WIFEXITED(st) && WEXITSTATUS(st) == 0) return;
+  if (WIFSIGNALED(st)) { signal(WTERMSIG(st), SIG_DFL); raise(WTERMSIG(st)); }
+  _exit(WIFEXITED(st) ? WEXITSTATUS(st) : 4);
+}
+
+/* mkdir -p + chdir along the components of [path] (".", ".." and empty ones are walked, not made) */
+static int make_along(const char* path) {
+  char tmp[4096]; char* sv = NULL; char* c;
+  if (strlen(path) >= sizeof(tmp)) return -1;
+  strcpy(tmp, path);
+  if (tmp[0] == '/' && chdir("/") != 0) return -1;
+  for (c = strtok_r(tmp, "/", &sv); c; c = strtok_r(NULL, "/", &sv)) {
+    if (strcmp(c, ".") == 0) continue;
+    if (strcmp(c, "..") != 0 && mkdir(c, 0700) != 0 && errno != EEXIST) return -1;
+    if (chdir(c) != 0) return -1;
+  }
+  return 0;
+}
+
 #define NEXT() strtok_r(NULL, " \n", &save)
 
 static void run_case(char* line) {
@@ -238,6 +274,21 @@ static void run_case(char* line) {
     break; }
   case G_HOSTNAME: {
     char* a = NEXT(); char* hv = NULL; char real[512];
+    if (a[0] == 'u') {                          /* the kernel's own name, set in a private UTS namespace */
+      pid_t pid = enter_child();
+      if (pid == 0) {
+        a[0] = 'x'; hv = unhex(a, &l); s_host_on = 0;
+        if (unshare(CLONE_NEWUTS) != 0) { printf("SKIP unshare-not-permitted errno=%d\n", errno); leave_child(); }
+        if (sethostname(hv, l) != 0) { printf("SKIP sethostname errno=%d\n", errno); leave_child(); }
+        memset(real, 0, sizeof(real));
+        if (__real_gethostname(real, sizeof(real) - 1) != 0) { printf("SKIP gethostname\n"); leave_child(); }
+        printf("hostname "); putx(real, strlen(real)); printf(" | ");
+        sweep(g, caps);
+        leave_child();
+      }
+      wait_child(pid);
+      break;
+    }
     if (a[0] == 'x') { hv = unhex(a, &l); s_host = hv; s_host_len = l; s_host_on = 1;
       printf("hostname "); putx(hv, l); }
     else { s_host_on = 0; memset(real, 0, sizeof(real));
@@ -251,8 +302,34 @@ static void run_case(char* line) {
     /* components: lengths of nested directories below the start directory */
     static char path[70000]; char comp[300]; char* a; size_t pl;
     if (fchdir(base_fd) != 0) die("fchdir");
+    a = NEXT();
+    if (a != NULL && (*a == '=' || *a == '^' || *a == '~')) {
+      /* =<abs path>  chdir there as written (nothing is created)
+       * ^<abs path>  chroot into the start directory first, create the path, chdir there as written
+       * ~<rel path>  create below the start directory, chdir there as written
+       * the true value is what getcwd(3) says afterwards, in the child */
+      pid_t pid = enter_child();
+      if (pid == 0) {
+        const char* pth = a + 1;
+        if (*a == '^') {
+          if (chroot(".") != 0) { printf("SKIP chroot-not-permitted errno=%d\n", errno); leave_child(); }
+          if (chdir("/") != 0) { printf("SKIP chdir-root\n"); leave_child(); }
+        }
+        if (*a != '=') {
+          if (make_along(pth) != 0) { printf("SKIP mkdir-along errno=%d\n", errno); leave_child(); }
+          if (*a == '~') { if (fchdir(base_fd) != 0) die("fchdir"); }
+        }
+        if (chdir(pth) != 0) { printf("SKIP chdir errno=%d\n", errno); leave_child(); }
+        if (getcwd(path, sizeof(path)) == NULL) { printf("SKIP getcwd errno=%d\n", errno); leave_child(); }
+        printf("cwd "); putx(path, strlen(path)); printf(" | ");
+        sweep(g, caps);
+        leave_child();
+      }
+      wait_child(pid);
+      break;
+    }
     strcpy(path, base_path); pl = strlen(path);
-    while ((a = NEXT()) != NULL) {
+    for (; a != NULL; a = NEXT()) {
       size_t n = (size_t) atoi(a);
       if (n < 1 || n > 255 || pl + n + 2 > sizeof(path)) continue;
       memset(comp, 'd', n); comp[n] = 0;
